@@ -1748,6 +1748,41 @@ pub fn f3r() -> Vec<Case> {
     out
 }
 
+/// F17: chains of named types. A variable whose type is an alias of an alias, an alias of a named
+/// subrange, a subrange over an alias (and longer chains) holds the ELEMENTARY type at the end of
+/// the chain: with and without a declared initial value (untyped literal), as program variable, FB
+/// variable and FB input, after typed arithmetic and a copy. Outcome class and tags (C01, C03).
+pub fn f17() -> Vec<Case> {
+    let mut out = Vec::new();
+    for base in [Ty::SInt, Ty::Int, Ty::DInt, Ty::LInt, Ty::USInt, Ty::UInt, Ty::UDInt] {
+        let b = base.name();
+        let shapes: Vec<(&str, String, &str)> = vec![
+            ("alias", format!("A1 : {b};"), "A1"),
+            ("alias-of-alias", format!("A1 : {b}; A2 : A1;"), "A2"),
+            ("alias-of-alias-of-alias", format!("A1 : {b}; A2 : A1; A3 : A2;"), "A3"),
+            ("subrange", format!("R1 : {b}(0..10);"), "R1"),
+            ("alias-of-subrange", format!("R1 : {b}(0..10); A2 : R1;"), "A2"),
+            ("subrange-over-alias", format!("A1 : {b}; R2 : A1(0..10);"), "R2"),
+            ("alias-of-subrange-over-alias", format!("A1 : {b}; R2 : A1(0..10); A3 : R2;"), "A3"),
+            ("subrange-over-subrange", format!("R1 : {b}(0..20); R2 : R1(0..10);"), "R2"),
+        ];
+        for (shape, types, t) in &shapes {
+            for init in ["", " := 3"] {
+                let iname = if init.is_empty() { "default" } else { "initial-value" };
+                let text = format!(
+                    "TYPE {types} END_TYPE\nFUNCTION_BLOCK Holder\nVAR_INPUT fin : {t}{init}; END_VAR\nVAR fv : {t}{init}; END_VAR\n    fv := fv + {b}#1;\nEND_FUNCTION_BLOCK\nPROGRAM Main\nVAR\n    v : {t}{init};\n    w : {t};\n    h : Holder;\n    k : {b};\nEND_VAR\n    k := v;\n    w := v;\n    v := v + {b}#1;\n    h();\nEND_PROGRAM\n"
+                );
+                let mut c = raw("F17", &format!("type-chain:{shape}:{iname}"), &text, 2);
+                let fb = FbDef { name: "Holder".into(), inputs: vec![Decl::new("fin", base)], outputs: vec![], vars: vec![Decl::new("fv", base)], body: vec![] };
+                c.prog.fbs.push(fb);
+                c.prog.vars = vec![Decl::new("v", base), Decl::new("w", base), Decl { name: "h".into(), ty: TyX::Fb("Holder".into()), init: None }, Decl::new("k", base)];
+                out.push(c);
+            }
+        }
+    }
+    out
+}
+
 pub fn corpus(thorough: bool) -> Vec<Case> {
     let mut out = Vec::new();
     out.extend(f2());
@@ -1767,6 +1802,7 @@ pub fn corpus(thorough: bool) -> Vec<Case> {
     out.extend(f5o());
     out.extend(f6p());
     out.extend(f3r());
+    out.extend(f17());
     out.extend(super::stdlib::cases(thorough));
     out.extend(super::oop::cases(thorough));
     out
